@@ -420,7 +420,8 @@ class Interp:
         di = op.get("dim", 0) % len(dims)
         if dims[di]["kind"] == "sampled":
             return False
-        tgt = self.pick("array", op["target"], lambda a: len(a.info["shape"]) >= 1 and
+        # dimension links stay inside the block (as every documented use does)
+        tgt = self.pick("array", op["target"], lambda a: a.parent is da.parent and len(a.info["shape"]) >= 1 and
                         (dims[di]["kind"] == "set" or a.info["dtype"] not in ("str", "bool")))
         if tgt is None:
             return False
